@@ -1,18 +1,24 @@
 ----------------------------- MODULE FindingsC13 -----------------------------
-(* Classes of the open findings of C13: minimal syntactic trigger /\ the specific wrong observation.             *)
+(* Classes of the findings of C13: minimal syntactic trigger /\ the specific wrong observation.                  *)
 EXTENDS Sequences, FiniteSets
 
-(* F-C13-4 / F-C13-5: a body default is applicable, default-setting is on, and the body is sent in a media type   *)
-(* other than application/json: the library decodes it, installs the default in the decoded value and then finds  *)
-(* no encoder to write it back ("rewriting failed"): a valid request is rejected with a body error, the body       *)
-(* readable afterwards is still the one received; the library-installed GetBody yields nothing from then on (the   *)
-(* failed encodeBody clobbered the variable its closure captured), so that a later validation leaves an empty body *)
-Consequences == {"valid_request_accepted", "defaults_exactly_once", "getbody_yields_same", "second_validation_changes_nothing"}
+(* A body default is applicable, default-setting is on, and the body is sent in a media type that has a decoder   *)
+(* but no encoder: the library decodes it and installs the default in the decoded value, but cannot write it back. *)
+(*  F-C13-5 (open) form_body_defaults_not_forwarded: urlencoded and multipart forms (since 403f95a): the request   *)
+(*     is accepted, stays readable as received, validates again -- but the forwarded body does not carry the      *)
+(*     defaults, which is the ONLY clause that fails.                                                             *)
+(*  F-C13-4 (fixed, d801280) rewrite_no_encoder_json_yaml: the JSON family and YAML were rejected ("rewriting      *)
+(*     failed"), and the failed re-encoding emptied the library-installed GetBody (the encoder's result went to    *)
+(*     the variable its closure captured), so that a later validation left an empty body.                          *)
+PinnedConsequences == {"valid_request_accepted", "defaults_exactly_once", "getbody_yields_same", "second_validation_changes_nothing"}
+NotJson(line) == line.c.kind = "body" /\ "mt" \in DOMAIN line.c /\ line.c.mt # "application/json" /\ ~line.c.skip
 Class(line, bad) ==
-   IF /\ line.c.kind = "body" /\ "mt" \in DOMAIN line.c /\ line.c.mt # "application/json" /\ ~line.c.skip
-      /\ "valid_request_accepted" \in bad /\ bad \subseteq Consequences
-      /\ "parts1" \in DOMAIN line /\ line.parts1 = <<"body">> /\ line.after1 = line.sent
-   THEN IF line.c.mt \in {"application/x-www-form-urlencoded", "multipart/form-data"}
-        THEN "rewrite_no_encoder_form" ELSE "rewrite_no_encoder_json_yaml"
+   IF /\ NotJson(line) /\ line.c.mt \in {"application/x-www-form-urlencoded", "multipart/form-data"}
+      /\ bad = {"defaults_exactly_once"} /\ line.verdict1 = "ok" /\ line.verdict2 = "ok" /\ line.after1 = line.sent /\ line.after2 = line.sent
+   THEN "form_body_defaults_not_forwarded"
+   ELSE IF /\ NotJson(line) /\ line.c.mt \notin {"application/x-www-form-urlencoded", "multipart/form-data"}
+           /\ "valid_request_accepted" \in bad /\ bad \subseteq PinnedConsequences
+           /\ "parts1" \in DOMAIN line /\ line.parts1 = <<"body">> /\ line.after1 = line.sent
+   THEN "rewrite_no_encoder_json_yaml"
    ELSE "none"
 =============================================================================
